@@ -15,7 +15,7 @@ def collect(prop, seed, runs, jobs, extra_env=None, sets=()):
         "from sim import engines; from sim.core import runner\n"
         f"e=engines.for_property('{prop}'); cfg=e.tier_config('{prop}','quick'); cfg['runs']={runs}; cfg['deadline_s']=3000\n"
         + "".join(f"cfg[{k!r}]={v!r}\n" for k, v in sets) +
-        f"e.prepare('{prop}',cfg); b=runner.run_batch(e,'{prop}',{seed},cfg,{jobs})\n"
+        f"e.prepare('{prop}',cfg); b=(e.custom_batch('{prop}',{seed},cfg,{jobs}) if hasattr(e,'custom_batch') else runner.run_batch(e,'{prop}',{seed},cfg,{jobs}))\n"
         "json.dump([[r['i'],r['digest'],r['sig']] for r in b['runs']],sys.stdout)\n")
     env = dict(os.environ, PYTHONHASHSEED="0", PYTHONDONTWRITEBYTECODE="1")
     env.update(extra_env or {})
